@@ -19,6 +19,7 @@ import tempfile
 
 import numpy as np
 import pandas as pd
+from pathlib import Path
 
 from mon import core, scanwrap
 from mon import refmodel as rm
@@ -105,7 +106,7 @@ def gen_table(rng, info: dict, kind: str, force_duplicate_labels: bool = False) 
         for r in rng.sample(range(nrows), min(nrows - 1, rng.randint(1, 2))):
             df.loc[r, "kz"] = 0.0
             fail_rows.append(r)
-    labels = rng.choice(["default", "offset", "str", "shuffled", "duplicate"])
+    labels = rng.choice(["default", "offset", "str", "shuffled", "duplicate", "float", "dotted"])
     if force_duplicate_labels:
         labels = "duplicate"
     if labels == "duplicate" and nrows >= 2:
@@ -115,6 +116,10 @@ def gen_table(rng, info: dict, kind: str, force_duplicate_labels: bool = False) 
         df.index = [10 + 3 * i for i in range(nrows)]
     elif labels == "str":
         df.index = [f"r{i}" for i in range(nrows)]
+    elif labels == "float":
+        df.index = [1.0 + 0.25 * i for i in range(nrows)]  # rows labelled by a scanned value
+    elif labels == "dotted":
+        df.index = [f"run.{chr(97 + i % 26)}{i // 26}" for i in range(nrows)]
     elif labels == "shuffled":
         idx = list(range(nrows))
         rng.shuffle(idx)
@@ -265,12 +270,19 @@ def run_case(case: dict) -> dict:
         ys = set(rng.sample(tv, 1)) if tv and rng.random() < 0.7 else set()
         ys |= set(rng.sample(info["variables"], 1))
         extra["y0"] = {v: round(rng.uniform(0.3, 2.5), 3) for v in sorted(ys)}
+    if table.index.is_unique and rng.random() < 0.35:
+        # (results are stored under their row label: tables whose labels repeat are left to the open finding on such tables)
+        # an (empty) result cache is handed to the scan: every mode below runs on the same directory, so the later ones read
+        # what the first one stored; rows stay rows
+        from mxlpy.parallel import Cache
+
+        extra["cache"] = Cache(tmp_dir=Path(tempfile.mkdtemp(prefix="c09cache-", dir=os.environ.get("VERIF_WORKDIR", "/tmp"))))  # noqa: S108
     modes = [{"parallel": False, "cores": 0}] if kind.startswith("scan.") else []
     cores = rng.sample([1, 2, 3, 5, 16], 2)
     modes += [{"parallel": True, "cores": c} for c in cores]
     viols: list[dict] = []
     counters: dict[str, int] = {f"kind:{kind}": 1, "rows": len(table), "failing_rows_planned": len(fail_rows),
-                                "with_y0": int("y0" in extra), "steady_state_scans_with_the_relative_norm_on_a_slow_network": int("rel_norm" in extra), "model_with_a_silently_underflowing_rate_term": int(any(c["name"] == "vtail" for c in spec["components"])), "y0_and_a_table_column_name_the_same_variable": int(any(c in extra.get("y0", {}) for c in table.columns)), "time_points_beyond_the_protocol": int("beyond_end" in locals()), "rows_failing_in_a_later_protocol_step": int("late_failures" in locals()), "duplicate_row_labels": int(not table.index.is_unique), "column_overrides_assignment_defined_parameter": int(info["ia"] and "k1" in table.columns), "y0_overlaps_table_column": int(any(v in table.columns for v in extra.get("y0", {})))}
+                                "with_y0": int("y0" in extra), "scans_with_a_result_cache": int("cache" in extra), "steady_state_scans_with_the_relative_norm_on_a_slow_network": int("rel_norm" in extra), "model_with_a_silently_underflowing_rate_term": int(any(c["name"] == "vtail" for c in spec["components"])), "y0_and_a_table_column_name_the_same_variable": int(any(c in extra.get("y0", {}) for c in table.columns)), "time_points_beyond_the_protocol": int("beyond_end" in locals()), "rows_failing_in_a_later_protocol_step": int("late_failures" in locals()), "duplicate_row_labels": int(not table.index.is_unique), "column_overrides_assignment_defined_parameter": int(info["ia"] and "k1" in table.columns), "y0_overlaps_table_column": int(any(v in table.columns for v in extra.get("y0", {})))}
     ctx = {"kind": kind, "table": {"index": [str(i) for i in table.index], **{c: table[c].tolist() for c in table.columns}},
            "extra": {kk: (v.tolist() if hasattr(v, "tolist") else str(v)) for kk, v in extra.items()}, "ia_model": info["ia"], "spec": spec}
     # ---- oracle per row ------------------------------------------------------
